@@ -77,7 +77,8 @@ ThoroughConfigs ==
 \* quick tier: every entry, every grid shape, every flip, both directions, every method family;
 \* fewer orders and no variational system (compilation of one driver per field dominates)
 QuickSel(c) ==
-    \/ c.sys = "rot" /\ c.order \in {4, 5, 8} /\ ~(c.method = "fixed" /\ c.order = 8)
+    \/ c.sys = "rot" /\ c.order \in {4, 5}
+    \/ c.sys = "rot" /\ c.method = "adaptive" /\ c.order = 8 /\ c.flip = "none"
     \/ c.sys = "ham" /\ c.method = "symplectic" /\ c.order \in {2, 6}
     \/ c.sys = "ham" /\ c.method = "fixed" /\ c.order = 4 /\ c.entry = "propagate" /\ c.flip = "none"
     \/ c.sys = "ham" /\ c.method # "symplectic" /\ c.entry = "integrate" /\ c.wrap = "raw" /\ c.order \in {4, 8}
